@@ -68,6 +68,9 @@ def witnesses(gs, which):
             add("idm", sig2, omat("m1", "GT::Dim", "GT::Dim") + omat("m2", "GT::Dim", "GT::Dim")
                 + "  m1 = GT::Identity().matrix();\n  m2 = (GT::Identity() * GT::Identity()).matrix();\n", [None, None], g.dim * g.dim, "C01",
                 "matrix(Identity) == I", ident=True)
+            add("sq", sig2, gin(0) + omat("m1", "GT::Dim", "GT::Dim") + omat("m2", "GT::Dim", "GT::Dim")
+                + "  GT g = x0;\n  g *= g;\n  m1 = g.matrix();\n  m2 = x0.matrix().lazyProduct(x0.matrix());\n", ["rep", None], g.dim * g.dim, "C01",
+                "g *= g gives matrix(g) matrix(g) (in-place composition whose right operand is the object itself)")
             base = re.match(r"^(SO2|SO3|SE2|SE3|Galilei)d$", k)
             if base:
                 n = ACTION[base.group(1)]
@@ -155,7 +158,7 @@ def check_identities(rep, tier, which, W=None, rule=None, minimum=None, desc=Non
                 a = st.get((nin, c * 8))
                 b = st.get((nin + 1, c * 8))
                 if a is None or b is None:
-                    bad = ("cell %d is not written on a path" % c, path)
+                    bad = ("cell %d is not written on a path (the result keeps whatever the storage held)" % c, path)
                     break
                 if meta["ident"]:
                     dim = int(round(n ** 0.5))
